@@ -255,7 +255,9 @@ def c20(ctx):
         servers = [{"tag": "namesync", "user": "www-data", "group": "www-data", "uid": 33, "gid": 33,
                     "initgroups": False, "worker_class": "sync"},
                    {"tag": "badhup", "user": "www-data", "group": "www-data", "uid": 33, "gid": 33,
-                    "initgroups": False, "worker_class": "sync", "badhup": True}]
+                    "initgroups": False, "worker_class": "sync", "badhup": True},
+                   {"tag": "envusr2", "user": "nobody", "group": "nogroup", "uid": 65534, "gid": 65534,
+                    "initgroups": False, "worker_class": "sync", "via_env": True, "usr2": True}]
         if not ctx.quick:
             servers += [
                 {"tag": "initsync", "user": "www-data", "group": "www-data", "uid": 33, "gid": 33,
@@ -266,6 +268,8 @@ def c20(ctx):
                  "initgroups": False, "worker_class": "sync"},
                 {"tag": "useronlyinit", "user": "nobody", "group": None, "uid": 65534, "gid": 0,
                  "initgroups": True, "worker_class": "gthread"},
+                {"tag": "cliusr2", "user": "www-data", "group": "www-data", "uid": 33, "gid": 33,
+                 "initgroups": True, "worker_class": "gthread", "usr2": True},
                 {"tag": "claudeuser", "user": "claudeuser", "group": "nogroup", "uid": 1000, "gid": 65534,
                  "initgroups": False, "worker_class": "sync"},
             ]
